@@ -255,6 +255,54 @@ func checkC11(w *World, r *Report) {
 	}
 	r.floor("scope-granting constructs in IncludeNode.Render", n2, 2)
 
+	// ---- R11.10 (the converse of R11.2): without `only` the included template reads what the
+	// includer reads.  A context built for the include that is NOT linked to the includer's
+	// context (no Clone of it, no parent link to it) gives access to a copy of one map at best —
+	// the variables bound further out in the chain (the render call's, an outer template's) are
+	// gone — so such a construction may only happen where n.only is true.
+	onlyTrue := flows(flagMatch("only", true))
+	n10 := 0
+	for _, pt := range parts {
+		pf := pt.fn
+		instrsOf(pf, func(in ssa.Instruction) {
+			x, ok := in.(*ssa.Call)
+			if !ok {
+				return
+			}
+			f := x.Call.StaticCallee()
+			if f == nil || !ctors[f] {
+				return
+			}
+			linked := false
+			for _, a := range x.Call.Args {
+				if isNamed(a.Type(), twigPath, "RenderContext") && origin(a) == ssa.Value(incCtx) {
+					linked = true // Clone() of the includer's context
+				}
+			}
+			if !linked && x.Referrers() != nil {
+				// parent link stored afterwards
+				instrsOf(pf, func(y ssa.Instruction) {
+					if st, ok := y.(*ssa.Store); ok {
+						if base, ok := fieldAddr(st.Addr, "RenderContext", "parent"); ok && unspill(base) == ssa.Value(x) && origin(st.Val) == ssa.Value(incCtx) {
+							linked = true
+						}
+					}
+				})
+			}
+			n10++
+			construct := "context built for the include: " + ssaName(f)
+			switch {
+			case linked:
+				r.ok("R11.10", ssaName(pf), construct, w.posOf(in.Pos()), "linked to the includer's context", true)
+			case onlyTrue[pf].at(in):
+				r.ok("R11.10", ssaName(pf), construct, w.posOf(in.Pos()), "unlinked, but reachable only where n.only is true", true)
+			default:
+				r.bad("R11.10", ssaName(pf), construct, w.posOf(in.Pos()), "a context that is not linked to the includer's is built on a path on which `only` may be false: the included template then sees at most a copy of the includer's innermost variable map — what is bound further out (the render call's variables when the includer is itself an included template, a macro's caller) reads as undefined")
+			}
+		})
+	}
+	r.floor("contexts built in IncludeNode.Render", n10, 2)
+
 	// R11.3
 	notFoundFor := func(errv ssa.Value) *boolFlow {
 		return flows(func(v ssa.Value, truth bool, resolve func(ssa.Value) ssa.Value) bool {
